@@ -107,6 +107,12 @@ func (t *Tree) parseOuterExpr(expr Expr) (Expr, error) {
 				if _, err := t.expect(tokenArrayClose); err != nil {
 					return nil, err
 				}
+			} else if idx := t.peekNonSpace(); idx.tokenType == tokenNumber {
+				// Compatibility with Twig: {{ val.0 }}. The number is an index and
+				// complete as it stands: in {{ rows.0.name }} the dot after it is
+				// the next access, not a decimal point.
+				t.nextNonSpace()
+				attr = NewStringExpr(idx.value, idx.Pos)
 			} else {
 				attr, err = t.parseInnerExpr()
 				if err != nil {
